@@ -264,8 +264,10 @@ def main():
             what = "%s: config=%s backend=%s impl output %r" % (msg, cfg.name, be, next(x for x in oc if ivf(x))[:120])
             path = run.write_replay("%s-%s-%s" % (cfg.name, be, name), small, what)
             run.violations.append((path, True, what))
-        elif fails_spec(prefix):
-            small = shrink(prefix, nhdr, fails_spec)
+        elif fails_spec(prefix) or fails_spec(lines):
+            # (the first line on which model and implementation differ need not be the one on which the implementation
+            # leaves the specification - e.g. an advertised size differs first, the data only later: look at the whole script)
+            small = shrink(prefix if fails_spec(prefix) else lines, nhdr, fails_spec)
             oc, _, _ = vlib.run_driver(cexe, "\n".join(small) + "\n", env)
             osp, _, _ = vlib.run_driver(spec, "\n".join(small) + "\n")
             mm2 = compare(small, oc, osp, ignore_undef=True, heap_prefix=True)
